@@ -245,6 +245,14 @@ let handle kind a =
        | (IxRefused FErr, _) -> Some "IxErr"
        | (IxRefused FPanic, _) -> Some "IxPanic"
        | (IxRead e, _) -> Some (err e))
+  | "bcfk" ->
+      (* the indexing key read off the site bytes (NV.Index.BcfSiteKey.bcf_site_key) *)
+      (match bcf_site_key (bytes_of_hex a.(0)) with
+       | None -> Some "Invalid"
+       | Some ((rid, start), e) ->
+           let z r = match r with ROk x -> dec_of_z x | RErr -> "Err" | RPanic -> "Panic" in
+           let zo r = match r with ROk None -> "-" | ROk (Some x) -> dec_of_z x | RErr -> "Err" | RPanic -> "Panic" in
+           Some (Printf.sprintf "rid=%s;start=%s;end=%s" (z rid) (zo start) (z e)))
   | _ -> None
 
 let () = run_driver handle
